@@ -1,0 +1,20 @@
+//go:build verif
+
+package types
+
+// VerifOpenTransaction returns the id of the registered transaction ("" if none) and
+// whether its rollback timer is armed. Read-only, under the manager's own lock.
+func (t *TransactionManager) VerifOpenTransaction() (id string, timerArmed bool) {
+	t.tmMutex.Lock()
+	defer t.tmMutex.Unlock()
+	if t.transaction == nil {
+		return "", false
+	}
+	tr := t.transaction
+	if tr.timer != nil {
+		tr.timer.doneMutex.Lock()
+		timerArmed = tr.timer.done != nil
+		tr.timer.doneMutex.Unlock()
+	}
+	return tr.transactionId, timerArmed
+}
